@@ -15,6 +15,9 @@ static mzd_t *rnd(rci_t m, rci_t n) { mzd_t *A = mzd_init(m, n); vh_fill_dense(A
 #define LIB(x) do { vh_lib_enter(); x; vh_lib_leave(); } while (0)
 
 static void s_create(void) { mzd_t *A; LIB(A = mzd_init(70, 130); mzd_free(A)); }
+/* storage above the block cache's threshold (the L3 size: 64 KiB in the small-cache build) takes the uncached branches */
+static void s_create_big(void) { mzd_t *A; LIB(A = mzd_init(1100, 1100); mzd_free(A)); }
+static void s_copy_big(void) { mzd_t *A = rnd(1030, 1100); LIB(mzd_copy(NULL, A)); }
 static void s_window(void) { mzd_t *A = mzd_init(70, 130), *W; LIB(W = mzd_init_window(A, 1, 64, 60, 130); mzd_free(W)); }
 static void s_many_headers(void) { mzd_t *A = mzd_init(4, 64); mzd_t *W[70]; LIB(for (int i = 0; i < 70; i++) W[i] = mzd_init_window(A, 0, 0, 4, 64)); (void)W; }
 static void s_mul_naive(void) { mzd_t *A = rnd(40, 50), *B = rnd(50, 30); LIB(mzd_mul_naive(NULL, A, B)); }
@@ -65,7 +68,7 @@ static void s_codes(void) { LIB(m4ri_destroy_all_codes(); m4ri_build_all_codes()
 
 typedef struct { const char *name; void (*fn)(void); } scn_t;
 static const scn_t SCN[] = {
-  {"create", s_create}, {"window", s_window}, {"many_headers", s_many_headers}, {"mul_naive", s_mul_naive}, {"mul_naive_wide", s_mul_naive_wide},
+  {"create", s_create}, {"create_big", s_create_big}, {"copy_big", s_copy_big}, {"window", s_window}, {"many_headers", s_many_headers}, {"mul_naive", s_mul_naive}, {"mul_naive_wide", s_mul_naive_wide},
   {"mul_m4rm", s_mul_m4rm}, {"addmul_m4rm", s_addmul_m4rm}, {"mul_strassen", s_mul_strassen}, {"addmul_strassen", s_addmul_strassen}, {"sqr", s_sqr},
   {"mul_windows", s_mul_windows},
 #if __M4RI_HAVE_OPENMP
